@@ -1,6 +1,69 @@
-(* Props/C08.v — placeholder while the proofs are being written *)
-Require Import IP.Base.Bytes IP.DM.Value IP.Schema.Types IP.Schema.View IP.Schema.Conform IP.Schema.Sem.
+(* Props/C08.v — type-level and representation views of a typed node obey the schema's strategy.
+   Property theorems only; proofs are in Proofs/Schema*.v.
+   Model: Schema/Sem.v (engines), Schema/Conform.v (specification), Schema/Types.v (wf). *)
+Require Import IP.Base.Bytes IP.DM.Value IP.Schema.Types IP.Schema.View IP.Schema.Conform IP.Schema.Sem
+  IP.Proofs.SchemaBuild IP.Proofs.SchemaRepr IP.Proofs.SchemaRefute IP.Proofs.SchemaTop.
 
-Theorem C08_placeholder : forall t v, repr_spec t v = repr_spec t v.
-Proof. reflexivity. Qed.
-Print Assumptions C08_placeholder.
+(* every strategy: the representation view is the canonical view of the specified representation, its
+   data is the specified representation, and the type-level view is the specified one.
+   [views_off e q]: the four view defects are off for engine e (true of (Bind, qoff) and of Gen). *)
+Theorem C08_views : forall e q t v, views_off e q -> on e q q_union_any = false ->
+  wf t = true -> has_type t v = true ->
+  repr_view e q t v = ov_of_dm (repr_spec t v) /\
+  repr e q t v = Some (repr_spec t v) /\
+  type_view e q t v = tview_spec t v.
+Proof. exact views_top. Qed.
+Print Assumptions C08_views.
+
+Theorem C08_views_bind : views_off Bind qoff /\ on Bind qoff q_union_any = false.
+Proof. split; [exact views_off_bind|reflexivity]. Qed.
+Print Assumptions C08_views_bind.
+
+(* both build routes rebuild the value, on both engines, for every strategy *)
+Theorem C08_two_routes : forall e t v, (e = Bind \/ e = Gen) -> wf t = true -> has_type t v = true ->
+  tbuild e qoff t (tdm_spec t v) = BOk v /\ rbuild e qoff t (repr_spec t v) = BOk v /\
+  conforms_t t (tdm_spec t v) = Some v /\ conforms_r t (repr_spec t v) = Some v.
+Proof. exact two_routes_top. Qed.
+Print Assumptions C08_two_routes.
+
+(* bytes, over any codec, for representations the codec reproduces exactly (maps in canonical order) *)
+Theorem C08_bytes_partial : forall (encode : dm -> option bytes) (decode : bytes -> option dm) e t v bs,
+  (e = Bind \/ e = Gen) -> wf t = true -> has_type t v = true ->
+  reproduced encode decode (repr_spec t v) ->
+  match repr e qoff t v with Some d => encode d | None => None end = Some bs ->
+  exists d', decode bs = Some d' /\ rbuild e qoff t d' = BOk v /\
+             match repr e qoff t v with Some d => encode d | None => None end = Some bs.
+Proof. exact bytes_top. Qed.
+Print Assumptions C08_bytes_partial.
+
+(* not closed: the same when the codec reorders map entries (typed maps, struct fields, Any content):
+   the rebuilt value is then v up to typed-map entry order and the second encoding equals the first *)
+Definition C08_full : Prop :=
+  forall (encode : dm -> option bytes) (decode : bytes -> option dm) (canon : dm -> dm) e t v bs,
+    (forall d b, encode d = Some b -> decode b = Some (canon d)) ->
+    (forall d, encode (canon d) = encode d) ->
+    (e = Bind \/ e = Gen) -> wf t = true -> has_type t v = true ->
+    encode (repr_spec t v) = Some bs ->
+    exists v', rbuild e qoff t (canon (repr_spec t v)) = BOk v' /\ encode (repr_spec t v') = Some bs.
+
+(* the hypotheses are satisfiable, and the theorems compute on a deep example *)
+Theorem C08_example : has_type tBig vBig = true /\ wf tBig = true /\
+  rbuild Bind qoff tBig (repr_spec tBig vBig) = BOk vBig.
+Proof. vm_compute. auto. Qed.
+Print Assumptions C08_example.
+
+(* the unchanged tree: one witness per confirmed view defect *)
+Theorem C08_refuted_listpairs_iter_index :
+  view_deviates tLP (VStruct [MAbsent; MVal (VString sq); MVal (VInt 1)]).
+Proof. exact refuted_listpairs_iter_index. Qed.
+Theorem C08_refuted_kinded_enum_kind : view_deviates tKE (VUnion 0 (VEnum nAa)).
+Proof. exact refuted_kinded_enum_kind. Qed.
+Theorem C08_refuted_kinded_len : view_deviates tKD (VUnion 2 vSM).
+Proof. exact refuted_kinded_len. Qed.
+Theorem C08_refuted_union_any : view_deviates tUA (VUnion 0 (VAny (DString sx))).
+Proof. exact refuted_union_any. Qed.
+Theorem C08_refuted_two_routes :
+  wf tNL = true /\ has_type tNL (VList [MVal (VUnion 0 (VInt 1)); MNull]) = true /\
+  rbuild Bind pinned tNL (repr_spec tNL (VList [MVal (VUnion 0 (VInt 1)); MNull])) = BPanic.
+Proof. exact refuted_two_routes. Qed.
+Print Assumptions C08_refuted_two_routes.
